@@ -33,6 +33,19 @@ def mod(name):
 def gen_history(rng, size, align, ss, has_sectors, n):
     qs = []
     maxr = min(size + 10, 300000)
+    # "interrupted sequential read": read one buffer, go somewhere else for a small read, come back to exactly where the
+    # first read stopped (state kept across calls — remembered file positions, shared handles — shows up here)
+    for _ in range(rng.choice([0, 2, 4, 6])):
+        if size > 4 * align:
+            o1 = rng.randrange(size - 2 * align) // align * align           # buffer-aligned: the backend request is [o1, o1 + k·align)
+            k = rng.choice([1, 1, 2])
+            n1 = rng.choice([1, 100, align // 2, k * align])
+            back = o1 + ((n1 + align - 1) // align) * align                  # exactly where that backend request stopped
+            o2 = rng.randrange(size)
+            qs += [["s", o1, 0], ["r", n1], ["s", o2, 0], ["r", rng.choice([1, 10, 512])], ["s", back, 0], ["r", rng.choice([100, align, align + 7])]]
+            if has_sectors and rng.random() < 0.5:
+                c = max(1, align // ss)
+                qs += [["S", o1 // ss, c], ["S", o2 // ss, 1], ["S", o1 // ss + c, c]]
     for _ in range(n):
         k = rng.choice(["s0", "s0", "s1", "s2", "r", "r", "r", "ri", "p", "p", "O", "t", "ra"] + (["S", "S"] if has_sectors else []))
         if k == "s0":
@@ -81,7 +94,13 @@ def generate(seed, tier):
                     r["extra"] = 0
                 ss = 512
             elif cls == "c04":
-                r = m.gen_recipe(crng, tier, big=(i % 10 == 3))
+                if i % 3 == 1:      # many large blocks, many of them sparse: room for state kept between backend requests to go stale
+                    while True:
+                        r = m.gen_recipe(crng, tier, bs=crng.choice([65536, 1 << 19]), nb=crng.choice([40, 120]))
+                        if r["kind"] == "dynamic":
+                            break
+                else:
+                    r = m.gen_recipe(crng, tier, big=(i % 10 == 3))
                 ss = 512
             elif cls == "c01":
                 r = m.gen_qcow2.gen_recipe(crng, "quick", nsnaps=0, many_l2=(i % 6 == 2))
